@@ -549,7 +549,7 @@ Proof.
     destruct (f_cell r0) as [x|] eqn:Hc; [|destruct Hi].
     destruct (f_side r0) eqn:Hsd; cbn in Hi; destruct Hi as [Hi|[]]; [discriminate|].
     inversion Hi; subst x. exists f, r0.
-    destruct (wf_fut _ _ _ _ W f r0 Hg) as [Hk _]. rewrite Hsd in Hk. destruct (Hk v Hc) as [X Y].
+    destruct (wf_fut _ _ _ _ W f r0 Hg) as [Hk _]. rewrite Hsd in Hk. destruct Hk as [Hk _]. destruct (Hk v Hc) as [X Y].
     repeat split; auto.
 Qed.
 
